@@ -411,7 +411,7 @@ def diagnose(case, obs):
     handles = {}          # h -> (generation, path)
     gen, snaps = 0, {}    # cache generations that some held proxy points into
     st = base_of(case, loads, env)
-    dict_writes, raw_writes, lost_writes = [], [], []
+    dict_writes, raw_writes, lost_writes, stale_paths = [], [], [], []
 
     def remerged():
         nonlocal gen
@@ -445,6 +445,12 @@ def diagnose(case, obs):
                 info["stale"] = g != gen
                 if g in snaps:
                     info["snap"] = expect(snaps[g], op, out)
+                    if g != gen:
+                        # edits the stale snapshot decides differently from the live view surface later
+                        se = [(e[0], list(e[1])) for e in info["snap"][1]]
+                        le = [(e[0], list(e[1])) for e in evs]
+                        stale_paths.extend(e[1] for e in se if e not in le)
+                        stale_paths.extend(e[1] for e in le if e not in se)
             # the edit lands in the nested dict ...
             apply_events(st, evs)
             for e in evs:
@@ -469,6 +475,7 @@ def diagnose(case, obs):
             info["dict_writes"] = list(dict_writes)
             info["raw_writes"] = list(raw_writes)
             info["lost_writes"] = list(lost_writes)
+            info["stale_paths"] = list(stale_paths)
             if not same_out(out, want):
                 return i, "outcome", info
             if view != st:
@@ -479,7 +486,7 @@ def diagnose(case, obs):
         if name.startswith("load_") or name.startswith("set_") or name == "merge":
             if "err" in out:
                 return i, "reload-error", {"op": op, "dict_writes": list(dict_writes), "raw_writes": list(raw_writes),
-                                           "lost_writes": list(lost_writes), "diff": []}
+                                           "lost_writes": list(lost_writes), "stale_paths": list(stale_paths), "diff": []}
             loads.append(op)
             env = step["env"]
             st = base_of(case, loads, env)
@@ -488,14 +495,14 @@ def diagnose(case, obs):
             if view != st:
                 return i, "view", {"op": op, "via": None, "dict_writes": list(dict_writes),
                                    "raw_writes": list(raw_writes), "lost_writes": list(lost_writes),
-                                   "diff": diff_paths(view, st)}
+                                   "stale_paths": list(stale_paths), "diff": diff_paths(view, st)}
             continue
         if name == "clone":
             handles = {}
             if view != st:
                 return i, "view", {"op": op, "via": None, "dict_writes": list(dict_writes),
                                    "raw_writes": list(raw_writes), "lost_writes": list(lost_writes),
-                                   "diff": diff_paths(view, st)}
+                                   "stale_paths": list(stale_paths), "diff": diff_paths(view, st)}
     return None
 
 
@@ -694,6 +701,10 @@ class C06(Prop):
                 live = expect(self._live_before(case, obs, i), op, out)
                 if same_out(out, swant) and [e[:2] for e in sevs] != [e[:2] for e in live[1]]:
                     return "F-C06e"
+        # ... or an earlier stale decision (an edit made or skipped on the snapshot's say-so) surfaces now
+        if what == "view" and info.get("stale_paths") and diff and \
+                all(any(under(p, q) or under(q, p) for q in info["stale_paths"]) for p in diff):
+            return "F-C06e"
         # F-C06h: an edit made through the raw dict handed out by get()/setdefault() is lost at the next re-merge
         if what == "view" and info.get("raw_writes") and diff and \
                 all(any(under(p, q) or under(q, p) for q in info["raw_writes"]) for p in diff):
